@@ -6,7 +6,7 @@ META = {
     "decided": [
         "13.a civil year -> 2 half-years, 4 seasons, 12 months, nested correctly, in order; month.get_season consistent (every year)",
         "13.b a civil month lists exactly the dates that exist in it, in order, as many as its day count (every month, incl. October 1582)",
-        "13.c a lunar year lists exactly its 12 or 13 months in order with the leap month right after its twin, for any leap table",
+        "13.c a lunar year lists exactly its 12 or 13 months in order with the leap month right after its twin, for any leap table (Kani, thorough tier); on engine B (quick tier too): the listing loop on a month line — exactly the months carrying the year's number, starting from month 1, in order, for a year of 12 and of 13 months",
         "13.d a lunar month lists exactly the days 1..day count of its own (year, month-with-leap), in order (engine B; listing loop unrolled, bound proved)",
         "13.e a lunar day lists 13 slots of itself: 00:00, then 01:00, 03:00 ... 23:00; 13.f a sexagenary day lists 12 double-hours, the k-th starting 7200 k seconds after 23:00 of the previous civil day",
         "13.g a sexagenary month lists the days from its Jie day to the day before the next Jie day, in order (engine B; loop unrolled 35 times, bound proved)",
@@ -40,7 +40,8 @@ def engine_b(tier, seed, scr):
     eng, err = engine(scr, "13.d/B/lunar-month-days", "13.d")
     if eng is None:
         return err
-    return [lunar.k_lunar_month_days(eng), lists.k_lunar_day_hours(eng), lists.k_sixty_day_hours(eng), lists.k_sixty_month_days(eng), lists.k_sixty_year_months(eng)]
+    return [lunar.k_lunar_month_days(eng), lists.k_lunar_day_hours(eng), lists.k_sixty_day_hours(eng), lists.k_sixty_month_days(eng), lists.k_sixty_year_months(eng),
+            lists.k_lunar_year_months(eng, 12), lists.k_lunar_year_months(eng, 13)]
 
 def fallback_candidates(j):
     if j.body.endswith("c13b_days"):
